@@ -347,6 +347,35 @@ func (f fnode) dupValueLeaf() bool {
 	return false
 }
 
+// repeatedValueMatches: some index leaf lists twice a value that row r carries in the
+// leaf's field. Used only to NAME a duplicate-entry violation.
+func (f fnode) repeatedValueMatches(r *Row) bool {
+	switch f.T {
+	case "S":
+		n := 0
+		for _, v := range f.SV {
+			if v == r.S {
+				n++
+			}
+		}
+		return n > 1
+	case "N":
+		n := 0
+		for _, v := range f.NV {
+			if v == r.N {
+				n++
+			}
+		}
+		return n > 1
+	}
+	for _, k := range f.Kids {
+		if k.repeatedValueMatches(r) {
+			return true
+		}
+	}
+	return false
+}
+
 const sigDupValues = "c17:index-path:repeated-filter-value-yields-repeated-entries"
 
 func (f fnode) shape() string {
@@ -534,7 +563,7 @@ type finding struct {
 type stats struct {
 	Ops, Queries, QueriesNonEmpty, InTxWithOwnWrites, WithForeignUncommitted, Ordered, Gets int
 	Commits, Aborts, Reopens, RawWrites, Updates, Deletes, Creates                          int
-	FilterUpdates                                                                           int
+	FilterUpdates, OrderedShort                                                             int
 }
 
 const nSlots = 4
@@ -955,7 +984,15 @@ func (w *world) checkQuery(o op) {
 		}
 		ka, dupA := keysOf(a)
 		kb, dupB := keysOf(b)
-		if dupA > 0 && dupB == 0 && o.F.dupValueLeaf() {
+		dupExplained := dupA > 0
+		seenA := map[uint32]bool{}
+		for i := range a {
+			if seenA[a[i].K] && !o.F.repeatedValueMatches(&a[i]) {
+				dupExplained = false
+			}
+			seenA[a[i].K] = true
+		}
+		if dupA > 0 && dupB == 0 && dupExplained {
 			w.report(sigDupValues, fmt.Sprintf("%s: idx.Filter was given the same value twice and the indexed query returned %d entries twice %v; the scan with the equivalent predicate returns each once", desc, dupA, a))
 		} else if dupA > 0 && dupB == 0 {
 			w.report("c17:index-path:duplicate-entries:"+tag, fmt.Sprintf("%s: indexed query returned %d duplicate entries %v; the scan returns each once", desc, dupA, a))
@@ -1149,12 +1186,31 @@ func (w *world) checkOrdered(o op) {
 		w.report("c17:ordered:wrong-row:"+tag, desc+": "+bad)
 		return
 	}
-	if fmt.Sprint(gotN) != fmt.Sprint(wantN) {
-		kind := "sequence-differs:" + tag
-		if o.F != nil && o.Limit > 0 && len(gotN) < len(wantN) {
-			kind = "filter-applied-after-limit"
+	if o.F != nil && o.Limit > 0 {
+		// OrderBy + Where + Limit: gorp documents (retrieve.go execOrdered, order_by.go
+		// walkOrder) and pins in its own suite (index_test.go "Should compose with a Where
+		// post-filter") that the limit bounds the WALK and the filter is applied afterwards,
+		// so a page may be shorter than filter-then-slice. The statement's list of indexed
+		// query shapes does not name this composition, so only soundness is demanded here:
+		// rows are in the view, match the filter (checked above), come in order, and are a
+		// subsequence-by-value of the filtered, sorted candidates. The shortfall is counted.
+		for i := 1; i < len(gotN); i++ {
+			if (!o.Desc && gotN[i-1] > gotN[i]) || (o.Desc && gotN[i-1] < gotN[i]) {
+				w.report("c17:ordered:sequence-differs:"+tag, fmt.Sprintf("%s: N sequence %v is not ordered", desc, gotN))
+				return
+			}
 		}
-		w.report("c17:ordered:"+kind, fmt.Sprintf("%s: N sequence %v, sort-then-slice over the view gives %v", desc, gotN, wantN))
+		if len(gotN) > o.Limit {
+			w.report("c17:ordered:sequence-differs:"+tag, fmt.Sprintf("%s: %d rows exceed the limit", desc, len(gotN)))
+			return
+		}
+		if len(gotN) < len(wantN) {
+			w.st.OrderedShort++
+		}
+		return
+	}
+	if fmt.Sprint(gotN) != fmt.Sprint(wantN) {
+		w.report("c17:ordered:sequence-differs:"+tag, fmt.Sprintf("%s: N sequence %v, sort-then-slice over the view gives %v", desc, gotN, wantN))
 	}
 }
 
@@ -1450,10 +1506,15 @@ func addStats(h *harness.H, st *stats) {
 	h.Count("updates", st.Updates)
 	h.Count("deletes", st.Deletes)
 	h.Count("writes_selected_by_filter", st.FilterUpdates)
+	h.Count("ordered_where_limit_pages_shorter_than_filter_then_slice", st.OrderedShort)
 }
 
 func layerSeq(h *harness.H) {
 	h.AddRule("seq: one case = one PRNG-generated single-goroutine history (20-100 ops over 3-12 keys, up to 4 interleaved transactions, optional pre-existing rows = bulk populate, raw observer-propagated writes, table reopen) with embedded queries (filter trees of depth <=3 over 2 lookup + 1 sorted index, key sets, predicates, And/Or/Not; exec/count/exists; ordered pagination; index Get sweeps); distinct = distinct script; non-trivial = >=1 query with a non-empty expected result and >=1 commit or pre-existing row")
+	h.Assume("ordered pagination is only asked in views without own uncommitted writes (the statement promises own-write visibility for equality queries only; gorp documents that ordered walks read committed index state)")
+	h.Assume("OrderBy+Where+Limit: gorp documents and pins in its own suite that the limit bounds the walk and the filter is applied afterwards; only soundness (rows in view, match filter, ordered, <= limit) is demanded and the shortfall is counted")
+	h.Assume("bare key-set queries (MatchKeys combined by And/Or only): ErrNotFound for missing keys is accepted and Exists is compared between the two paths only (documented conventions outside the statement)")
+	h.Assume("raw (index-less) writes go straight to the store outside any transaction, as replicated writes do")
 	n := h.N(3000, 150000)
 	parallel(h, "seq", n, func(c int) {
 		r := h.Rand("seq", c)
